@@ -6,5 +6,10 @@ mkdir -p bin evidence replays
 go build -tags verif -o bin/check.setup ./cmd/check || exit 2
 # the hb variant (C05, C10) links the system libharfbuzz through cgo: fail loudly here if it cannot be built
 go build -tags "verif hb" -o bin/check.setup ./cmd/check || { echo "cannot build the libharfbuzz variant (cgo, -l:libharfbuzz.so.0)"; exit 2; }
-rm -f bin/check.setup
+# the C17 variant: generated list of package-level variables (overlay, nothing written under /repo), plain and -race builds
+ov=/var/tmp/verif-c17-ov.setup
+go run ./tools/c17gen /repo "$ov" || { rm -rf "$ov"; echo "cannot generate the C17 overlay"; exit 2; }
+go build -tags "verif c17" -overlay "$ov/overlay.json" -o bin/check.setup ./cmd/check || { rm -rf "$ov"; echo "cannot build the C17 variant"; exit 2; }
+go build -race -tags "verif c17" -overlay "$ov/overlay.json" -o bin/check.setup ./cmd/check || echo "warning: no -race build (the free-running pass of C17 will be skipped and reported as such)"
+rm -rf "$ov" bin/check.setup
 echo "setup ok"
